@@ -75,13 +75,19 @@ def match_finding(findings, pid, w):
     for f in findings:
         if f.get("property") != pid or f.get("status", "open") != "open":
             continue
-        if not fnmatch.fnmatchcase(w["subject"], f["subject"]):
+        pat = f["subject"]
+        if not (w["subject"] == pat or (pat.endswith("*") and w["subject"].startswith(pat[:-1]))):
             continue
         if w["kind"] != f["kind"]:
             continue
         ok = True
         for k, v in (f.get("requires") or {}).items():
-            if w["preds"].get(k) != v:
+            have = w["preds"].get(k)
+            if isinstance(v, str) and v.startswith("prefix:"):
+                if not (isinstance(have, str) and have.startswith(v[7:])):
+                    ok = False
+                    break
+            elif have != v:
                 ok = False
                 break
         if ok:
@@ -148,6 +154,9 @@ def do_check(pid, tier):
     if hasattr(mod, "shard_cost"):
         order.sort(key=lambda i: -mod.shard_cost(shards[i]))
     total = Acc()
+    import shutil
+
+    shutil.rmtree(os.path.join(HOME, "replays", pid), ignore_errors=True)
     nproc = max(1, min(NPROC, len(shards)))
     ctx = mp.get_context("fork")
     with ctx.Pool(nproc, initializer=_worker_init) as pool:
@@ -156,14 +165,21 @@ def do_check(pid, tier):
         findings_db = load_findings()
         findings = findings_db.get("findings", [])
         unknown, known = [], {}
+        unk = {}
         for (subject, kind, _pk), g in sorted(total.groups.items(), key=lambda kv: repr(kv[0])):
             w0 = g["witnesses"][0]
             f = match_finding(findings, pid, w0)
             if f is None:
-                unknown.append((g, w0))
+                # report one line per (subject, kind): smallest witness over all predicate groups
+                u = unk.setdefault((subject, kind), [{"count": 0}, w0])
+                u[0]["count"] += g["count"]
+                if (w0["size"], json.dumps(w0["witness"], sort_keys=True, default=repr)) < (
+                    u[1]["size"], json.dumps(u[1]["witness"], sort_keys=True, default=repr)):
+                    u[1] = w0
             else:
                 k = known.setdefault(f["id"], {"finding": f, "count": 0, "witness": w0})
                 k["count"] += g["count"]
+        unknown = [(g, w) for (g, w) in unk.values()]
         # replay every unknown witness (and one per known finding) twice
         to_replay = [w for _g, w in unknown] + [k["witness"] for k in known.values()]
         replay_failures = []
